@@ -704,4 +704,7 @@ def run(P, R, tier):
     rules.narrowing_fields(P, R, 'C11.WID.1', ('modules/iauth_core.c', 'modules/iauth_xquery.c', 'modules/iauth_class.c'))
     # the address criterion is a prefix test over ALL leading bits: the mask walk starts at the first group
     c13.mask_walk_from_start(P, R, 'C11.TAB.9')
+    # a rule's /n is the number written: it cannot wrap around into a small one
+    _f13 = c13.scope(P)
+    c13.accumulators_bounded(P, R, list(_f13) if not isinstance(_f13, dict) else list(_f13.values()), 'C11.ARITH.1')
     return EXPLANATION, ASSUMPTIONS
